@@ -283,7 +283,7 @@ def run(ctx):
     task_errors = [s["errors"] for s in stats if s["errors"]]
     for e in task_errors[:5]:
         oracle_failures.append({"signature": "task-error-under-explicit-schedule", "errors": e})
-    m = ctx.scale(150, 2500, 800)
+    m = ctx.scale(300, 2500, 800)
     descs = []
     for i in range(m):
         d, f = e2e_session(ctx.seed * 1000003 + i) if i % 4 else conn_limited_session(ctx.seed * 1000003 + i)
